@@ -191,5 +191,89 @@ theorem expandedDensityOf_lower (E : Rat) (R : Int) (hE : E = 0 ∨ 1 / 4 ≤ E)
   rw [e] at h2
   exact h2
 
+/-! ### the ratio-adjusted factors -/
+
+/-- `e = 1.0 + (e - 1.0) * ratio` stored in a `float`, for a `float` factor `1 ≤ e ≤ 2^53` and `ratio ≥ 0`:
+`e - 1.0` is exact, the product, the sum and the narrowing round once each:
+`adjust ρ e ≤ (1 + (e−1)·ρ)·(1+2^-53)²·(1+2^-24)` -/
+theorem adjust_le (ρ e : Rat) (hρ : 0 ≤ ρ) (hfix : f64 e = e) (he1 : 1 ≤ e) (he53 : e ≤ 2 ^ 53) :
+    adjust ρ e ≤ (1 + (e - 1) * ρ) * (1 + (2 : Rat) ^ (-53 : Int)) ^ 2 * (1 + (2 : Rat) ^ (-24 : Int)) := by
+  have hu := z2_pos (-53)
+  have hε := z2_pos (-24)
+  have hex : f64 (f64 e - 1) = e - 1 := by
+    rw [hfix]
+    have := f64_sub_int_exact hfix 1 (by norm_num) (by push_cast; exact he1) he53
+    simpa using this
+  have hg : 0 ≤ (e - 1) * ρ := mul_nonneg (by linarith) hρ
+  have h3 := f64_le_gen hg
+  have h30 : 0 ≤ f64 ((e - 1) * ρ) := f64_nonneg hg
+  have hηu : (2 : Rat) ^ (-1075 : Int) ≤ (2 : Rat) ^ (-53 : Int) := z2_le (by norm_num)
+  have hone : (2 : Rat) ^ (-1022 : Int) ≤ 1 := le_trans quarter_norm (by norm_num)
+  have h4 : f64 (1 + f64 ((e - 1) * ρ)) ≤ (1 + f64 ((e - 1) * ρ)) * (1 + (2 : Rat) ^ (-53 : Int)) :=
+    f64_rel_le (by linarith)
+  have h41 : 1 ≤ f64 (1 + f64 ((e - 1) * ρ)) := f64_ge_one (by linarith)
+  have hone32 : (2 : Rat) ^ (-126 : Int) ≤ 1 := by
+    have h1 : (2 : Rat) ^ (-126 : Int) ≤ (2 : Rat) ^ (0 : Int) := z2_le (by norm_num)
+    simpa using h1
+  have h5 : f32' (f64 (1 + f64 ((e - 1) * ρ))) ≤
+      f64 (1 + f64 ((e - 1) * ρ)) * (1 + (2 : Rat) ^ (-24 : Int)) := f32'_rel_le (le_trans hone32 h41)
+  unfold adjust
+  rw [hex]
+  generalize f32' (f64 (1 + f64 ((e - 1) * ρ))) = y5 at *
+  generalize f64 (1 + f64 ((e - 1) * ρ)) = y4 at *
+  generalize f64 ((e - 1) * ρ) = y3 at *
+  generalize (e - 1) * ρ = g at *
+  generalize (2 : Rat) ^ (-1075 : Int) = η at *
+  generalize (2 : Rat) ^ (-53 : Int) = u at *
+  generalize (2 : Rat) ^ (-24 : Int) = ε at *
+  -- 1 + y3 ≤ (1 + g)(1 + u)
+  have a1 : 1 + y3 ≤ (1 + g) * (1 + u) := by nlinarith
+  have a2 : y4 ≤ (1 + g) * (1 + u) * (1 + u) := by
+    have := mul_le_mul_of_nonneg_right a1 (show (0 : Rat) ≤ 1 + u by linarith)
+    linarith
+  have a3 : y4 * (1 + ε) ≤ (1 + g) * (1 + u) * (1 + u) * (1 + ε) :=
+    mul_le_mul_of_nonneg_right a2 (by linarith)
+  have e1 : (1 + g) * (1 + u) ^ 2 * (1 + ε) = (1 + g) * (1 + u) * (1 + u) * (1 + ε) := by ring
+  rw [e1]; linarith
+
+/-- the exact expanded area of the adjusted factors: at most `(1+2^-53)²(1+2^-24)·(A + ρ·(S − A))` -/
+theorem expandedArea_adjust_le (ρ : Rat) (hρ : 0 ≤ ρ) : ∀ (l : List Cell) (es : List Rat), NonnegSizes l →
+    (∀ e ∈ es, f64 e = e ∧ 1 ≤ e ∧ e ≤ 2 ^ 53) → l.length = es.length →
+    Expand.expandedArea l (es.map (adjust ρ)) ≤
+      (1 + (2 : Rat) ^ (-53 : Int)) ^ 2 * (1 + (2 : Rat) ^ (-24 : Int)) *
+        ((movableArea l : Rat) + ρ * (Expand.expandedArea l es - (movableArea l : Rat)))
+  | [], [], _, _, _ => by simp [Expand.expandedArea, Expand.movableArea_nil]
+  | [], _ :: _, _, _, h => by simp at h
+  | _ :: _, [], _, _, h => by simp at h
+  | cl :: rest, e :: es, hn, he, hlen => by
+    have ih := expandedArea_adjust_le ρ hρ rest es (fun c h => hn c (by simp [h])) (fun x h => he x (by simp [h]))
+      (by simpa using hlen)
+    simp only [List.map_cons, Expand.expandedArea, Expand.movableArea_cons]
+    by_cases hfx : cl.fixed = true
+    · simp only [hfx, if_true]; push_cast; simpa using ih
+    · have hfx' : cl.fixed = false := by simpa using hfx
+      obtain ⟨hw0, hh0⟩ := hn cl (by simp) hfx'
+      obtain ⟨hfix, he1, he53⟩ := he e (by simp)
+      have hadj := adjust_le ρ e hρ hfix he1 he53
+      have ha : (0 : Rat) ≤ (cl.w : Rat) * (cl.h : Rat) :=
+        mul_nonneg (by exact_mod_cast hw0) (by exact_mod_cast hh0)
+      have h1 := mul_le_mul_of_nonneg_right hadj ha
+      simp only [hfx', Bool.false_eq_true, if_false, cellArea]
+      push_cast
+      have e3 : (1 + (e - 1) * ρ) * (1 + (2 : Rat) ^ (-53 : Int)) ^ 2 * (1 + (2 : Rat) ^ (-24 : Int)) *
+          ((cl.w : Rat) * (cl.h : Rat)) = (1 + (2 : Rat) ^ (-53 : Int)) ^ 2 * (1 + (2 : Rat) ^ (-24 : Int)) *
+          ((1 + (e - 1) * ρ) * ((cl.w : Rat) * (cl.h : Rat))) := by ring
+      rw [e3] at h1
+      generalize (1 + (2 : Rat) ^ (-53 : Int)) ^ 2 * (1 + (2 : Rat) ^ (-24 : Int)) = K at *
+      generalize Expand.expandedArea rest (List.map (adjust ρ) es) = X at *
+      generalize adjust ρ e = e' at *
+      have e4 : K * (((cl.w : Rat) * (cl.h : Rat) + (movableArea rest : Rat)) +
+          ρ * (e * ((cl.w : Rat) * (cl.h : Rat)) + Expand.expandedArea rest es -
+            ((cl.w : Rat) * (cl.h : Rat) + (movableArea rest : Rat)))) =
+          K * ((1 + (e - 1) * ρ) * ((cl.w : Rat) * (cl.h : Rat))) +
+          K * ((movableArea rest : Rat) + ρ * (Expand.expandedArea rest es - (movableArea rest : Rat))) := by ring
+      rw [e4]
+      linarith
+
 end ExpandF
 end ColoVerif
